@@ -1,0 +1,17 @@
+//go:build verif
+
+package node
+
+import (
+	"github.com/rigochain/rigo-go/ctrlers/account"
+	"github.com/rigochain/rigo-go/ctrlers/gov"
+	"github.com/rigochain/rigo-go/ctrlers/stake"
+	"github.com/rigochain/rigo-go/ctrlers/vm/evm"
+)
+
+// Read-only accessors for the external verification harness (build tag `verif` only).
+
+func (ctrler *RigoApp) VerifStakeCtrler() *stake.StakeCtrler { return ctrler.stakeCtrler }
+func (ctrler *RigoApp) VerifGovCtrler() *gov.GovCtrler       { return ctrler.govCtrler }
+func (ctrler *RigoApp) VerifAcctCtrler() *account.AcctCtrler { return ctrler.acctCtrler }
+func (ctrler *RigoApp) VerifEVMCtrler() *evm.EVMCtrler       { return ctrler.vmCtrler }
